@@ -129,6 +129,9 @@ class Tr:
                 t = f"({b}.contains ({a}).name)"
             elif kb == "units":
                 t = f"({b}.contains {a})"
+            elif kb == "unit":
+                # DateUnit is a StrEnum: `DateUnit.MONTH in self.unit` is a SUBSTRING test on the unit names
+                t = f"(OFCore.Tie.nameInfix {a} {b})"
             else:
                 raise NotTranslatable("membership in " + kb)
             return t if isinstance(op, ast.In) else f"(!{t})"
@@ -257,6 +260,107 @@ def selector_chain(fn: ast.FunctionDef, tr: Tr, target: str) -> list:
 
 
 # ---------------------------------------------------------------------------------------------------------------
+# dispatch chains: `if <test on units>: <leaf>` ... `<default leaf>`, leaves translated idiom by idiom
+
+EXC_TAG = {"ValueError": "value", "NotImplementedError": "notimpl", "AssertionError": "assert"}
+
+SPAN_DAYS = ("last = self.start.offset(self.size, self.unit)\nif last is None:\n    raise NotImplementedError\n"
+             "last_day = last.offset(-1, DateUnit.DAY)\nif last_day is None:\n    raise NotImplementedError\n"
+             "return (last_day.date - self.start.date).days + 1")
+WEEKS_AFTER = ("start = self.start.date\ncease = start.add({kw}=self.size)\ndelta = start.diff(cease)\nreturn delta.in_weeks()")
+
+PERIOD_ATTR = {"this_year": "p.thisYear", "first_month": "p.firstMonth", "first_week": "p.firstWeek",
+               "first_day": "(Except.ok p.firstDay)", "first_weekday": "(Except.ok p.firstWeekday)"}
+SIZE_ATTR = {"size": "(Except.ok p.size)", "size_in_years": "p.sizeInYears", "size_in_months": "p.sizeInMonths",
+             "size_in_days": "p.sizeInDays", "size_in_weeks": "p.sizeInWeeks", "size_in_weekdays": "p.sizeInWeekdays"}
+
+
+def _int_expr(n: ast.AST) -> str:
+    """an integer expression over the period's sizes, as a Lean term of type `Except String Int`"""
+    p = _attr_path(n)
+    if p is not None and p.startswith("self.") and p[5:] in SIZE_ATTR:
+        return SIZE_ATTR[p[5:]]
+    if isinstance(n, ast.Constant) and isinstance(n.value, int) and not isinstance(n.value, bool):
+        return f"(Except.ok ({n.value} : Int))"
+    if isinstance(n, ast.BinOp) and isinstance(n.op, (ast.Mult, ast.Add, ast.Sub)):
+        op = {ast.Mult: "*", ast.Add: "+", ast.Sub: "-"}[type(n.op)]
+        return f"(do let a ← {_int_expr(n.left)}; let b ← {_int_expr(n.right)}; Except.ok (a {op} b))"
+    raise NotTranslatable(f"integer expression {ast.unparse(n)[:50]}")
+
+
+def _leaf(stmts: list, kind: str) -> str:
+    """the Lean term a leaf block denotes (`kind`: int -> Except String Int, periods -> Except String (List Period))"""
+    text = "\n".join(ast.unparse(s) for s in stmts)
+    *init, last = stmts
+    if isinstance(last, ast.Raise) and all(_is_msg_assign(x) for x in init):
+        exc = last.exc
+        name = (exc.func.id if isinstance(exc, ast.Call) and isinstance(exc.func, ast.Name) else exc.id if isinstance(exc, ast.Name) else None)
+        if name in EXC_TAG:
+            return f'(Except.error "{EXC_TAG[name]}")'
+        raise NotTranslatable(f"raise {ast.unparse(exc)[:40]}")
+    if kind == "int":
+        if text == SPAN_DAYS:
+            return "p.spanDays"
+        if text == WEEKS_AFTER.format(kw="years"):
+            return "(Tie.weeksAfterYears p)"
+        if text == WEEKS_AFTER.format(kw="months"):
+            return "(Tie.weeksAfterMonths p)"
+        if len(stmts) == 1 and isinstance(last, ast.Return) and last.value is not None:
+            return _int_expr(last.value)
+    if kind == "periods" and len(stmts) == 1 and isinstance(last, ast.Return) and isinstance(last.value, ast.ListComp):
+        lc = last.value
+        g = lc.generators[0] if len(lc.generators) == 1 else None
+        if g is not None and isinstance(g.target, ast.Name) and not g.ifs and isinstance(g.iter, ast.Call) and _attr_path(g.iter.func) == "range" \
+                and len(g.iter.args) == 1 and isinstance(lc.elt, ast.Call) and isinstance(lc.elt.func, ast.Attribute) and lc.elt.func.attr == "offset" \
+                and len(lc.elt.args) == 2 and isinstance(lc.elt.args[0], ast.Name) and lc.elt.args[0].id == g.target.id:
+            base = _attr_path(lc.elt.func.value) or ""
+            unit = _attr_path(lc.elt.args[1]) or ""
+            count = _attr_path(g.iter.args[0]) or ""
+            if base.startswith("self.") and base[5:] in PERIOD_ATTR and unit.split(".")[-1] in UNITS and count.startswith("self.") and count[5:] in SIZE_ATTR:
+                return (f"(do let b ← {PERIOD_ATTR[base[5:]]}; let n ← {SIZE_ATTR[count[5:]]}; "
+                        f"offsetsFrom b DUnit.{unit.split('.')[-1].lower()} n)")
+    raise NotTranslatable(f"leaf not understood: {text[:80]!r}")
+
+
+def dispatch_chain(fn: ast.FunctionDef, tr: Tr, kind: str) -> list:
+    """[(lean condition | None, lean leaf)]; the last entry is the default leaf"""
+    out: list = []
+
+    def block(body: list, ctx: list) -> None:
+        body = [s for s in body if not (isinstance(s, ast.Expr) and isinstance(s.value, ast.Constant) and isinstance(s.value.value, str))]
+        for i, s in enumerate(body):
+            if isinstance(s, ast.If) and not s.orelse:
+                try:
+                    cond = tr.boolean(s.test)
+                except NotTranslatable:
+                    cond = None
+                if cond is not None:
+                    try:
+                        leaf = _leaf(s.body, kind)
+                        out.append((" && ".join([*ctx, cond]) if ctx else cond, leaf))
+                    except NotTranslatable:
+                        block(s.body, [*ctx, cond])
+                    continue
+            # everything that is left is the default leaf of this block
+            out.append((" && ".join(ctx) if ctx else None, _leaf(body[i:], kind)))
+            return
+        raise NotTranslatable("a block falls through without returning")
+
+    block(fn.body, [])
+    if not out or out[-1][0] is not None:
+        raise NotTranslatable("no default leaf")
+    return out
+
+
+def _dispatch_to_lean(chain: list) -> str:
+    lines = []
+    for cond, leaf in chain[:-1]:
+        lines.append(f"  if {cond} then {leaf} else")
+    lines.append("  " + chain[-1][1])
+    return "\n".join(lines)
+
+
+# ---------------------------------------------------------------------------------------------------------------
 # what is translated
 
 SIM = "openfisca_core/simulations/simulation.py"
@@ -265,6 +369,8 @@ V_SIM = {"variable.definition_period": ("du", "unit"), "period.unit": ("pu", "un
 V_HOLDER = {"self.variable.definition_period": ("du", "unit"), "period.unit": ("pu", "unit"), "period.size": ("sz", "int"),
             "self._eternal": ("(du == DUnit.eternity)", "bool"), "period": ("(some pu)", "opt"),
             "self.variable.is_neutralized": ("neutralized", "bool")}
+PERIOD = "openfisca_core/periods/period_.py"
+V_PERIOD = {"self.unit": ("p.unit", "unit"), "self.size": ("p.size", "int"), "unit": ("u", "unit")}
 SKIP_SIM = ["variable: Variable | None", "variable = self.tax_benefit_system.get_variable(", "if variable is None:",
             "if period is not None and (not isinstance(period, periods.Period)):", "return sum(", "return self.calculate("]
 
@@ -282,6 +388,12 @@ SPECS = [
          vocab=V_SIM, params="(du : DUnit)", fallback="OFCore.Tie.enclosingName du"),
     dict(name="calculateDivide_denominator", file=SIM, cls="Simulation", func="calculate_divide", kind="selector", target="denominator",
          vocab=V_SIM, params="(pu : DUnit)", fallback="OFCore.Tie.denominatorName pu"),
+    *[dict(name=f"period_{fn}", file=PERIOD, cls="Period", func=fn, kind="dispatch", leaf="int", vocab=V_PERIOD,
+           params="(p : Period)", typ="Except String Int", fallback=f"p.{model}")
+      for fn, model in (("size_in_years", "sizeInYears"), ("size_in_months", "sizeInMonths"), ("size_in_days", "sizeInDays"),
+                        ("size_in_weeks", "sizeInWeeks"), ("size_in_weekdays", "sizeInWeekdays"))],
+    dict(name="period_get_subperiods", file=PERIOD, cls="Period", func="get_subperiods", kind="dispatch", leaf="periods", vocab=V_PERIOD,
+         params="(p : Period) (u : DUnit)", typ="Except String (List Period)", fallback="p.subperiods u"),
     dict(name="holderSet_raises", file=HOLDER, cls="Holder", func="_set", kind="guards", stop_at="should_store_on_disk",
          vocab=V_HOLDER, params="(du pu : DUnit) (sz : Int)", skip=["value = self._to_array(value)"],
          fallback="OFCore.Tie.holderSetGuards du pu sz"),
@@ -333,6 +445,11 @@ def translate(repo: str) -> tuple[str, dict]:
                 body = _chain_to_lean(chain, sp.get("raise_only", False))
                 typ = "Bool"
                 doc = f"{len(chain)} guards of `{sp['cls']}.{sp['func']}` ({sp['file']}), first match decides; `true` = raises"
+            elif sp["kind"] == "dispatch":
+                chain = dispatch_chain(fn, tr, sp["leaf"])
+                body = _dispatch_to_lean(chain)
+                typ = sp["typ"]
+                doc = f"`{sp['cls']}.{sp['func']}` ({sp['file']}): {len(chain)} branches, first match decides, leaves translated idiom by idiom"
             else:
                 chain = selector_chain(fn, tr, sp["target"])
                 body = _selector_to_lean(chain)
@@ -341,7 +458,7 @@ def translate(repo: str) -> tuple[str, dict]:
             status[sp["name"]] = "translated"
         except (NotTranslatable, OSError, SyntaxError) as e:
             body = "  " + sp["fallback"]
-            typ = "Bool" if sp["kind"] == "guards" else "String"
+            typ = sp.get("typ") or ("Bool" if sp["kind"] == "guards" else "String")
             doc = f"NOT TRANSLATED ({e}): falls back to the hand-written model's own decision"
             status[sp["name"]] = f"fallback: {e}"
         defs.append(f"/-- {doc} -/\ndef {sp['name']} {sp['params']} : {typ} :=\n{body}\n")
